@@ -185,3 +185,13 @@ func vLimiterOp(t []string) string {
 	}
 	return v.dump()
 }
+
+// VerifClientLimit reports whether a client made by NewClient is wrapped by the limiter, and with which capacity,
+// free tokens and time-out.
+func VerifClientLimit(c Client) (limited bool, capacity, tokens int, timeout time.Duration) {
+	l, ok := c.(*limitClient)
+	if !ok {
+		return false, 0, 0, 0
+	}
+	return true, cap(l.semaphore), len(l.semaphore), l.timeout
+}
